@@ -8,6 +8,18 @@ VERIF = os.path.dirname(os.path.dirname(os.path.abspath(__file__)))
 SEEDED = os.path.join(VERIF, 'seeded')
 
 NEEDS = {
+    'C01-r7m1': 'two toECEF results alive together on one converter (result returned by reference to a member buffer)',
+    'C01-r7m2': 'longitude exactly 0 (prime meridian, Y == 0) or a Cartesian input with an exact zero X or Y',
+    'C02-r7m1': 'anchor, toENU(P), setAnchor(B) without reset(), toENU(P) again (remembered last fix survives re-anchoring)',
+    'C02-r7m2': 'two or more toWGS84 calls on one converter for points tens of km apart in latitude (restart from the previous latitude, 3 passes)',
+    'C03-r7m1': 'any point strictly west of the central meridian (sign of sin lost)',
+    'C03-r7m2': 'two converters with different projection constants in one process, toWGS84 on one then on the other (function-local statics)',
+    'C04-r7m1': 'list overload, more than 256 noisy correspondences (stride sampling)',
+    'C04-r7m2': 'homogeneous point type through the overload without a correspondence list (bottom-right entry of H)',
+    'C05-r7m1': 'at least 128 correspondences with N % (N/64) != 0 and a non-zero residual on the dropped rows',
+    'C05-r7m2': 'an estimated rotation above 0.075 rad (result projected onto the nearest rotation)',
+    'C07-r7m1': 'setPreconditionner(A, b) with A != I and b != 0',
+    'C07-r7m2': 'a well-conditioned J whose entries are small in magnitude (absolute epsilon added to the diagonal of JtJ)',
     'C01-r6m1': 'the EarthEllipsoid the converter was built from is re-assigned or destroyed afterwards (reference member)',
     'C01-r6m2': 'heights of several km (closed-form first guess and a cap of 2 refinement passes)',
     'C02-r6m1': 'first point exactly at latitude 0, longitude 0 on an un-anchored converter (no-fix guard skips the auto-anchor)',
